@@ -38,14 +38,30 @@ def _simp(t):
     return z3.simplify(t)
 
 
+def _pi_multiple(t):
+    """If t is c*pi or c*sqrt2 (c a non-zero rational numeral) return (c, inverse-constant) else None."""
+    from .builtins_ import PI, SQRT2, INV_PI, INV_SQRT2
+    t = z3.simplify(t)
+    for sym, inv in ((PI, INV_PI), (SQRT2, INV_SQRT2)):
+        if t.eq(sym):
+            return z3.RealVal(1), inv
+        if z3.is_mul(t) and t.num_args() == 2:
+            a, b = t.arg(0), t.arg(1)
+            if z3.is_rational_value(a) and b.eq(sym) and a.numerator_as_long() != 0:
+                return a, inv
+            if z3.is_rational_value(b) and a.eq(sym) and b.numerator_as_long() != 0:
+                return b, inv
+    return None
+
+
 def _mk(re, im, np_):
     if im is not None:
-        ims = z3.simplify(im)
+        ims = z3.simplify(im, som=True)
         if z3.is_rational_value(ims) and ims.numerator_as_long() == 0:
             im = None
         else:
             im = ims
-    return SNum(z3.simplify(re), im, None, np_)
+    return SNum(z3.simplify(re, som=True), im, None, np_)
 
 
 def _same_sort(a, b):
@@ -128,6 +144,12 @@ def arith(op, a, b):
             raise_py('ZeroDivisionError')
         if y.im is None:
             c_ = y.rez()
+            pm = _pi_multiple(c_)
+            if pm is not None:
+                k, inv = pm
+                if x.im is None:
+                    return _mk(x.rez() * inv / k, None, np_)
+                return _mk(x.rez() * inv / k, x.imz() * inv / k, np_)
             if x.im is None:
                 return _mk(x.rez() / c_, None, np_)
             return _mk(x.rez() / c_, x.imz() / c_, np_)
